@@ -226,6 +226,31 @@ theorem C20_addAll_order_irrelevant (H : HashFn) (dbg : Bool) (ds es : List Byte
   · rintro ⟨d, hd, hp⟩; exact ⟨d, (hse d).mp hd, hp⟩
   · rintro ⟨d, hd, hp⟩; exact ⟨d, (hse d).mpr hd, hp⟩
 
+/-- **When exactly a query answers `true` after a list of insertions** (the false-positive condition,
+    stated outright): every one of the queried element's positions was set in the original field or is
+    a position of one of the inserted elements. -/
+theorem C20_contains_after_addAll_iff (H : HashFn) (dbg : Bool) (ds : List Bytes) (f f2 : BloomFilter)
+    (q : Bytes) (h0 : 0 < f.filter.length) (hl : f.filter.length < 2 ^ 29)
+    (h : addAll H dbg f ds = .ok f2) :
+    contains H dbg f2 q = .ok true ↔
+      ∀ i, i < f.numHashFuncs →
+        (getBit f.filter (position H (8 * f.filter.length) f.tweak q i) = true ∨
+         ∃ d ∈ ds, position H (8 * f.filter.length) f.tweak q i ∈
+            positions H (8 * f.filter.length) f.numHashFuncs f.tweak d) := by
+  obtain ⟨x, ex, l2, n2, t2, b2⟩ := C20_addAll_bits H dbg ds f h0 hl
+  rw [h] at ex
+  injection ex with ex
+  subst ex
+  rw [C20_contains_iff H dbg f2 q (by rw [l2]; exact h0) (by rw [l2]; exact hl), l2, n2, t2]
+  constructor
+  · intro hh i hi
+    have := hh i hi
+    rw [b2] at this
+    simpa [List.any_eq_true] using this
+  · intro hh i hi
+    rw [b2]
+    simpa [List.any_eq_true] using hh i hi
+
 /-! ## no panic -/
 
 /-- **No panic** in `add`, `contains`, `validate` for every filter (empty ones included), every
